@@ -108,6 +108,23 @@ FoldClasses ==
 \* three 16-bit terms: the only total that needs a second fold is 0x1ffff
 ThreeTermTotals == \A t \in 0..(3 * 65535) : (FoldsNeeded(t) = 2) <=> (t = 131071)
 
+\* ---- wider folds.  An implementation may add 32-bit words into a 64-bit accumulator and fold 64 -> 32 -> 16; the
+\* same carry question then arises one level up: does hi32 + lo32 overflow 32 bits?  TLC integers cannot hold such sums,
+\* so the 64-bit accumulator is four 16-bit digits d0 (least significant) .. d3.  Length must be a multiple of 4.
+\* order "le": word j = b[4j-3] + 2^8 b[4j-2] + 2^16 b[4j-1] + 2^24 b[4j];  "be": the bytes in the opposite order.
+Acc64Step(a, L, H) ==
+  LET s0 == a.d0 + L
+      s1 == a.d1 + H + (s0 \div W16)
+      s2 == a.d2 + (s1 \div W16)
+  IN  [d0 |-> s0 % W16, d1 |-> s1 % W16, d2 |-> s2 % W16, d3 |-> a.d3 + (s2 \div W16)]
+Acc64(b, order) ==
+  FoldLeft(LAMBDA a, j : IF order = "le"
+                         THEN Acc64Step(a, b[4*j-3] + 256 * b[4*j-2], b[4*j-1] + 256 * b[4*j])
+                         ELSE Acc64Step(a, b[4*j-1] * 256 + b[4*j], b[4*j-3] * 256 + b[4*j-2]),
+           [d0 |-> 0, d1 |-> 0, d2 |-> 0, d3 |-> 0], [j \in 1..(Len(b) \div 4) |-> j])
+\* folding the 64-bit accumulator into 32 bits carries out of bit 31 (a second 32-bit fold is needed)
+Fold32Carries(a) == a.d1 + a.d3 + ((a.d0 + a.d2) \div W16) >= W16
+
 \* x such that x +' y = t in one's-complement arithmetic (used to construct vectors with a prescribed sum)
 Sub1c(t, y) == Add1c(t, 65535 - y)
 
